@@ -67,7 +67,7 @@ class ConvHooks(Hooks):
             return Obj(repo.cls('sed.cube', 'SEDCube'), {
                 '_names': symarr('cnames', (M,)), '_wav': symarr('cubewav', (N,), unit=unit_atom('micron')), '_nu': None,
                 '_apertures': symarr('cap', (A,), unit=unit_atom('au')),
-                '_val': symarr('cubeval', (M, A, N), unit=unit_atom('mJy')), '_unc': symarr('cubeunc', (M, A, N), unit=unit_atom('mJy')),
+                '_val': symarr('cubeval', (M, A, N), unit=unit_atom('Ucube')), '_unc': symarr('cubeunc', (M, A, N), unit=unit_atom('Ucube')),   # the cube's flux unit is whatever the file declares
                 '_distance': scalar(sym('cubedist')), '_valid': None})
         if q.endswith(':Filter.rebin'):
             me = args[0]
